@@ -23,6 +23,7 @@ type frame struct {
 	visits    map[*ssa.BasicBlock]int
 	lastFork  map[*ssa.BasicBlock]int
 	callPos   token.Pos
+	phiOverride map[*ssa.Phi]value
 }
 
 func (fr *frame) get(key ssa.Value) value {
@@ -298,10 +299,16 @@ func (ex *Exec) runBlock(fr *frame) {
 				}
 			}
 			var tmp []value
+			over := fr.phiOverride
+			fr.phiOverride = nil
 			for ; i < len(blk.Instrs); i++ {
 				phi, ok := blk.Instrs[i].(*ssa.Phi)
 				if !ok {
 					break
+				}
+				if ov, has := over[phi]; has {
+					tmp = append(tmp, ov)
+					continue
 				}
 				tmp = append(tmp, fr.get(phi.Edges[predIndex]))
 			}
@@ -414,6 +421,9 @@ func (ex *Exec) visitInstr(fr *frame, instr ssa.Instruction) bool {
 
 	case *ssa.If:
 		c := fr.get(instr.Cond).(*smt.Term)
+		if !c.IsConst() && !ex.NoIfConv && ex.tryIfConvert(fr, c) {
+			return true
+		}
 		succ := 1
 		if ex.branch("if", c) {
 			succ = 0
